@@ -1131,6 +1131,9 @@ func shortFn(fn, top *ssa.Function) string {
 	if fn.Parent() != nil {
 		return n
 	}
+	if top == nil || top.Pkg == nil { // an instantiation of a generic function has no package of its own
+		return n
+	}
 	return fn.RelString(top.Pkg.Pkg)
 }
 
